@@ -286,7 +286,9 @@ var c18TypeLikeElemNames = []string{"date", "time", "string", "uuid", "point", "
 var c18TimeZones = []string{"UTC", "Europe/Moscow", "America/New_York", "Asia/Istanbul", "Etc/GMT+3", "Europe/Amsterdam", "", "Asia/Kolkata", "UCT", "W-SU",
 	"UTC", "Europe/Moscow", "a'b", "'", "\\", "a\\b", "tab\tx", "it's", "\\'", "nl\nx", "\x00", "Ünï", "\xff", "a\x80z"}
 var c18EnumNames = []string{"a", "b", "c", "hello", "hello world", "", "Ünï", "привет", "a=b", "x,y", "(", ")", "--", "/*", "*/", "0", "NULL", " ",
-	"back\\slash", "\\", "tab\tx", "nl\nx", "cr\r", "nul\x00", "bs\b", "ff\f", "\\n", "a\"b", "`", "=", " = 1", "a'b", "'", "it's", "''", "x\\'y", "\xff", "\xc3", "ab\xe2\x82", "\x80\x81"}
+	"back\\slash", "\\", "tab\tx", "nl\nx", "cr\r", "nul\x00", "bs\b", "ff\f", "\\n", "a\"b", "`", "=", " = 1", "a'b", "'", "it's", "''", "x\\'y", "\xff", "\xc3", "ab\xe2\x82", "\x80\x81",
+	// strings that spell type names, keywords and constructor heads (a string must never be taken for a type)
+	"string", "int", "date", "uuid", "json", "Array", "Tuple", "Nullable", "Int8", "DateTime", "Enum8", "NULL", "AS", "Map(String, Int8)", "Array(Int8)"}
 
 // the generator's copy of isDataTypeName's list. It only steers generation (which names may stand where); if /repo's list
 // changes, the `c18ty` correspondence below reports it (the Lean side's WfTy uses the regenerated DC.Gen.TypeNames).
